@@ -155,7 +155,7 @@ type wantOp struct {
 
 var wantOps = []wantOp{
 	{"post", "/alpha/items/{id}", "CreateAlpha", "Alpha", false, "schemeA[read]", []string{"id:path:true", "limit:query:false", "x-trace:header:true"}, "required", "201", []string{"404"}},
-	{"delete", "/alpha/items/{id}", "DeleteAlpha", "Alpha", true, "schemeB[admin,write]", []string{"id:path:true"}, "", "204", nil},
+	{"delete", "/alpha/items/{id}", "DeleteAlpha", "Alpha", true, "schemeB[admin,orders:read&write,tenant's,write]", []string{"id:path:true"}, "", "204", nil},
 	{"put", "/beta/things", "UpdateBeta", "Beta", false, "schemeD[read]", nil, "required", "200", nil},
 	{"get", "/beta/things", "ListBeta", "Beta", false, "schemeD[read]", []string{"filter:query:true", "rank:query:true"}, "", "200", nil},
 	{"patch", "/beta/things/{thingId}/", "PatchBeta", "Beta", false, "schemeD[read]", []string{"thingId:path:true"}, "optional", "202", []string{"409", "422"}},
@@ -166,6 +166,7 @@ var wantOps = []wantOp{
 	{"get", "/gamma/widgets/names", "ListWidgetNames", "Gamma", false, "schemeD[read]", []string{"colour:query:true"}, "", "200", nil},
 	{"get", "/gamma/widgets/search", "SearchWidgets", "Gamma", false, "schemeD[read]", []string{"tenant:query:true", "region:query:true", "zone:query:true", "x-limit:header:true"}, "", "200", nil},
 	{"post", "/gamma/receipts/{serial}", "IssueReceipt", "Gamma", false, "schemeD[read]", []string{"serial:path:true"}, "", "201", []string{"201"}},
+	{"get", "/healthz", "Healthz", "", false, "schemeD[read]", []string{"verbose:query:true"}, "", "204", nil},
 }
 
 func checkOperations(doc specDoc, version string, report func(class, msg string)) {
@@ -796,6 +797,18 @@ func TestVerifC18Ranges(t *testing.T) {
 					fmt.Printf("VERIF-FAIL: class=C18-range-outside-file diagnostic %q of %s (%s): range %d:%d-%d:%d does not lie inside %s (%d lines)\n", rd.Code, d.EntityKind, d.EntityName, r.StartLine, r.StartCol, r.EndLine, r.EndCol, rd.FilePath, len(lines))
 					failed = true
 				}
+				// a diagnostic about a {name} of the route points at that {name}
+				if ok && (rd.Code == string(diagnostics.DiagLinkerRouteMissingPath) || rd.Code == string(diagnostics.DiagLinkerDuplicateUrlParam)) && r.StartLine == r.EndLine {
+					if q1 := strings.Index(rd.Message, "'"); q1 >= 0 {
+						if q2 := strings.Index(rd.Message[q1+1:], "'"); q2 >= 0 {
+							name := rd.Message[q1+1 : q1+1+q2]
+							if got := lines[r.StartLine][r.StartCol:r.EndCol]; got != "{"+name+"}" {
+								fmt.Printf("VERIF-FAIL: class=C18-url-parameter-range-elsewhere diagnostic %q about URL parameter %q covers %q in %s\n", rd.Code, name, got, rd.FilePath)
+								failed = true
+							}
+						}
+					}
+				}
 			}
 			for _, c := range d.Children {
 				if c != nil {
@@ -840,6 +853,9 @@ func TestVerifC20Config(t *testing.T) {
 		{"routes-output-missing", func(cfg map[string]any) { delete(rc(cfg), "outputPath") }, "outputpath", 0},
 		{"openapi-version-unknown", func(cfg map[string]any) { oc(cfg)["openapi"] = "2.0" }, "openapi", 0},
 		{"baseurl-malformed", func(cfg map[string]any) { oc(cfg)["baseUrl"] = "not a url" }, "baseurl", 0},
+		{"baseurl-path-only", func(cfg map[string]any) { oc(cfg)["baseUrl"] = "/api/v1" }, "baseurl", 0},
+		{"baseurl-no-host", func(cfg map[string]any) { oc(cfg)["baseUrl"] = "http://" }, "baseurl", 0},
+		{"scheme-openid-url-malformed", func(cfg map[string]any) { scheme0(cfg)["openIdConnectUrl"] = "/.well-known" }, "openidconnecturl", 0},
 		{"info-title-missing", func(cfg map[string]any) { delete(oc(cfg)["info"].(map[string]any), "title") }, "title", 0},
 		{"info-version-missing", func(cfg map[string]any) { delete(oc(cfg)["info"].(map[string]any), "version") }, "version", 0},
 		{"contact-email-malformed", func(cfg map[string]any) {
